@@ -492,10 +492,10 @@ Section Facts.
     intro Hst. apply IH; [eapply step_preserves_inv; eauto | eapply state_ok_stable; eauto].
   Qed.
 
-  Theorem C07_cache_content_addressed w w' : disk_inv w -> steps w w' -> cache_addressed w'.
+  Theorem c07_cache_content_addressed w w' : disk_inv w -> steps w w' -> cache_addressed w'.
   Proof. intros Hinv Hs. apply (steps_preserve_inv _ _ Hinv Hs). Qed.
 
-  Theorem C07_init t0 : 0 < t0 -> disk_inv (init_world Fine t0).
+  Theorem c07_init t0 : 0 < t0 -> disk_inv (init_world Fine t0).
   Proof.
     intro Ht0. unfold init_world.
     assert (forall f, ~ any_file (mk_world [] no_rdir t0 Fine) f) as Hno.
@@ -624,7 +624,7 @@ Section Facts.
     - left. eapply OnInitDir; eauto.
   Qed.
 
-  Theorem C08_own_step_keeps_content paths w w' c :
+  Theorem c08_own_step_keeps_content paths w w' c :
     disk_inv w -> own_step_on paths w w' -> protected_content paths w c -> protected_content paths w' c.
   Proof.
     intros (_ & _ & _ & Ha & _) Hs Hp.
@@ -640,14 +640,14 @@ Section Facts.
 
   (* the unrestricted form: a content is lost from the protected set only by being restored to a
      path outside it, where it then sits *)
-  Theorem C08_own_step_content_general paths w w' c :
+  Theorem c08_own_step_content_general paths w w' c :
     disk_inv w -> own_step w w' -> protected_content paths w c ->
     protected_content paths w' c \/
     exists p f, ~ In p paths /\ fget w p = None /\ fget w' p = Some f /\ f_content f = c.
   Proof.
     intros Hinv Hs Hp.
     destruct (own_step_own_step_on paths _ _ Hs) as [Hon | (t & p & Hnin & Hnone & Hr)].
-    - left. eapply C08_own_step_keeps_content; eauto.
+    - left. eapply c08_own_step_keeps_content; eauto.
     - (* protect p as well: the content is kept there or elsewhere *)
       assert (protected_content (p :: paths) w c) as Hp'.
       { destruct Hp as [(q & g & Hq & Hg) | H]; [left; exists q, g; cbn; tauto | right; exact H]. }
@@ -1259,11 +1259,11 @@ Section Facts.
     0 < t0 -> Forall safe_op ops ->
     disk_inv (fold_left (fun w o => fst (apply_op teqb hc hl hr w o)) ops (init_world Fine t0)).
   Proof.
-    intros Ht0 Hsafe. pose proof (C07_init t0 Ht0) as Hinv.
+    intros Ht0 Hsafe. pose proof (c07_init t0 Ht0) as Hinv.
     eapply steps_preserve_inv; [exact Hinv|]. apply history_steps; auto.
   Qed.
 
-  Theorem C07_every_history t0 (ops : list (op T)) :
+  Theorem c07_every_history t0 (ops : list (op T)) :
     0 < t0 -> Forall safe_op ops ->
     cache_addressed (fold_left (fun w o => fst (apply_op teqb hc hl hr w o)) ops (init_world Fine t0)).
   Proof. intros Ht0 Hsafe. apply (reach_inv t0 ops Ht0 Hsafe). Qed.
@@ -1369,7 +1369,7 @@ Theorem own_step_is_step_refuted :
        disk_inv sym_eqb SContent w -> own_step sym_eqb SContent w w' -> step sym_eqb SContent w w').
 Proof.
   intro H.
-  assert (disk_inv sym_eqb SContent ois_w) as Hinv by (apply InvProofs.C07_init; reflexivity).
+  assert (disk_inv sym_eqb SContent ois_w) as Hinv by (apply InvProofs.c07_init; reflexivity).
   specialize (H ois_w (write_table sym ois_w ois_tbl) Hinv (OWriteTable _ _ _ _ _)).
   inversion H as [w p a t w' Hok Hg Hb | w t p w' Hr | w p c | w p | w p x | w tbl0 Htbl | w hr r h
                  | w w' tbl0 Hi | w | w rd' Hsh].
@@ -1407,7 +1407,7 @@ Proof.
   - intros tbl p st Ht. cbn in Ht. discriminate.
 Qed.
 
-Theorem C08_own_step_keeps_content_literal_refuted :
+Theorem c08_own_step_keeps_content_literal_refuted :
   ~ (forall paths (w w' : world sym) c,
        disk_inv sym_eqb SContent w -> own_step sym_eqb SContent w w' ->
        protected_content sym_eqb paths w c -> protected_content sym_eqb paths w' c).
@@ -1475,12 +1475,12 @@ Section Results.
   Proof. exact (InvProofs.steps_preserve_inv T teqb hc teqb_spec). Qed.
 
   (* ---- R5 ---- *)
-  Theorem C07_cache_content_addressed : forall w w',
+  Theorem c07_cache_content_addressed : forall w w',
     disk_inv teqb hc w -> steps teqb hc w w' -> cache_addressed teqb hc w'.
-  Proof. exact (InvProofs.C07_cache_content_addressed T teqb hc teqb_spec). Qed.
+  Proof. exact (InvProofs.c07_cache_content_addressed T teqb hc teqb_spec). Qed.
 
-  Theorem C07_init : forall t0, 0 < t0 -> disk_inv teqb hc (init_world Fine t0).
-  Proof. exact (InvProofs.C07_init T teqb hc). Qed.
+  Theorem c07_init : forall t0, 0 < t0 -> disk_inv teqb hc (init_world Fine t0).
+  Proof. exact (InvProofs.c07_init T teqb hc). Qed.
 
   (* ---- R6 (hc injective is needed here only) ---- *)
   Theorem own_step_on_own_step : forall paths w w', own_step_on T teqb hc paths w w' -> own_step teqb hc w w'.
@@ -1493,22 +1493,22 @@ Section Results.
   Proof. exact (InvProofs.own_step_own_step_on T teqb hc). Qed.
 
   (* own_step_on paths = own_step with ORestore restricted to In p paths *)
-  Theorem C08_own_step_keeps_content :
+  Theorem c08_own_step_keeps_content :
     (forall a b, hc a = hc b -> a = b) ->
     forall paths w w' c,
       disk_inv teqb hc w -> own_step_on T teqb hc paths w w' ->
       protected_content teqb paths w c -> protected_content teqb paths w' c.
-  Proof. exact (InvProofs.C08_own_step_keeps_content T teqb hc teqb_spec). Qed.
+  Proof. exact (InvProofs.c08_own_step_keeps_content T teqb hc teqb_spec). Qed.
 
   (* for unrestricted own_step: protected content stays protected, or it now sits at a path outside
      `paths` that was empty before *)
-  Theorem C08_own_step_content_general :
+  Theorem c08_own_step_content_general :
     (forall a b, hc a = hc b -> a = b) ->
     forall paths w w' c,
       disk_inv teqb hc w -> own_step teqb hc w w' -> protected_content teqb paths w c ->
       protected_content teqb paths w' c \/
       exists p f, ~ In p paths /\ fget w p = None /\ fget w' p = Some f /\ f_content f = c.
-  Proof. exact (InvProofs.C08_own_step_content_general T teqb hc teqb_spec). Qed.
+  Proof. exact (InvProofs.c08_own_step_content_general T teqb hc teqb_spec). Qed.
 
   (* own_step_is_step is FALSE as stated (own_step_is_step_refuted below): OWriteTable has no premise.
      What holds: an own step is a step provided that, if it is a table write, the table is sound.
@@ -1583,31 +1583,31 @@ Section Results.
     disk_inv teqb hc (fold_left (fun w o => fst (apply_op teqb hc hl hr w o)) ops (init_world Fine t0)).
   Proof. exact (InvProofs.reach_inv T teqb hc teqb_spec hl hr). Qed.
 
-  Theorem C07_every_history : forall t0 (ops : list (op T)),
+  Theorem c07_every_history : forall t0 (ops : list (op T)),
     0 < t0 -> Forall (safe_op T) ops ->
     cache_addressed teqb hc (fold_left (fun w o => fst (apply_op teqb hc hl hr w o)) ops (init_world Fine t0)).
-  Proof. exact (InvProofs.C07_every_history T teqb hc teqb_spec hl hr). Qed.
+  Proof. exact (InvProofs.c07_every_history T teqb hc teqb_spec hl hr). Qed.
 End Results.
 
 (* ---- the instance with free symbolic hashes: closed statements ---- *)
 
-Theorem C07_cache_content_addressed_sym : forall w w' : world sym,
+Theorem c07_cache_content_addressed_sym : forall w w' : world sym,
   disk_inv sym_eqb SContent w -> steps sym_eqb SContent w w' -> cache_addressed sym_eqb SContent w'.
-Proof. exact (C07_cache_content_addressed sym sym_eqb SContent sym_eqb_spec). Qed.
+Proof. exact (c07_cache_content_addressed sym sym_eqb SContent sym_eqb_spec). Qed.
 
-Theorem C07_init_sym : forall t0, 0 < t0 -> disk_inv sym_eqb SContent (init_world Fine t0).
-Proof. exact (C07_init sym sym_eqb SContent). Qed.
+Theorem c07_init_sym : forall t0, 0 < t0 -> disk_inv sym_eqb SContent (init_world Fine t0).
+Proof. exact (c07_init sym sym_eqb SContent). Qed.
 
-Theorem C08_own_step_keeps_content_sym : forall paths (w w' : world sym) c,
+Theorem c08_own_step_keeps_content_sym : forall paths (w w' : world sym) c,
   disk_inv sym_eqb SContent w -> own_step_on sym sym_eqb SContent paths w w' ->
   protected_content sym_eqb paths w c -> protected_content sym_eqb paths w' c.
-Proof. exact (C08_own_step_keeps_content sym sym_eqb SContent sym_eqb_spec SContent_inj). Qed.
+Proof. exact (c08_own_step_keeps_content sym sym_eqb SContent sym_eqb_spec SContent_inj). Qed.
 
-Theorem C08_own_step_content_general_sym : forall paths (w w' : world sym) c,
+Theorem c08_own_step_content_general_sym : forall paths (w w' : world sym) c,
   disk_inv sym_eqb SContent w -> own_step sym_eqb SContent w w' -> protected_content sym_eqb paths w c ->
   protected_content sym_eqb paths w' c \/
   exists p f, ~ In p paths /\ fget w p = None /\ fget w' p = Some f /\ f_content f = c.
-Proof. exact (C08_own_step_content_general sym sym_eqb SContent sym_eqb_spec SContent_inj). Qed.
+Proof. exact (c08_own_step_content_general sym sym_eqb SContent sym_eqb_spec SContent_inj). Qed.
 
 Theorem build_steps_sym : forall (w : world sym) rp goal,
   disk_inv sym_eqb SContent w ->
@@ -1625,10 +1625,10 @@ Theorem reach_inv_sym : forall t0 (ops : list (op sym)),
     (fold_left (fun w o => fst (apply_op sym_eqb SContent SList SRule w o)) ops (init_world Fine t0)).
 Proof. exact (reach_inv sym sym_eqb SContent sym_eqb_spec SList SRule). Qed.
 
-Theorem C07_every_history_sym : forall t0 (ops : list (op sym)),
+Theorem c07_every_history_sym : forall t0 (ops : list (op sym)),
   0 < t0 -> Forall (safe_op sym) ops ->
   cache_addressed sym_eqb SContent
     (fold_left (fun w o => fst (apply_op sym_eqb SContent SList SRule w o)) ops (init_world Fine t0)).
-Proof. exact (C07_every_history sym sym_eqb SContent sym_eqb_spec SList SRule). Qed.
+Proof. exact (c07_every_history sym sym_eqb SContent sym_eqb_spec SList SRule). Qed.
 
-(* refuted, see above: own_step_is_step_refuted, C08_own_step_keeps_content_literal_refuted *)
+(* refuted, see above: own_step_is_step_refuted, c08_own_step_keeps_content_literal_refuted *)
